@@ -73,9 +73,17 @@ structure Space where
 def Space.isNorm (sp : Space) (i : Nat) : Bool :=
   sp.normalize && (sp.lb.getD i none).isSome && (sp.ub.getD i none).isSome
 
+/-- A frozen component: its two bounds are finite and equal.  `DesignSpace.normalize_vect`
+    divides by `where(ub - lb == 0, 1, ub - lb)`, so both normalised bounds of such a component
+    are `0` (the working interval is `[0, 0]`, not `[0, 1]`). -/
+def Space.isFrozen (sp : Space) (i : Nat) : Bool :=
+  match sp.lb.getD i none, sp.ub.getD i none with
+  | some l, some u => l == u
+  | _, _ => false
+
 /-- Upper bound in the working space: `normalize_vect(get_upper_bounds())[i]` or `get_upper_bounds()[i]`. -/
 def Space.ubW (sp : Space) (i : Nat) : Option Rat :=
-  if sp.isNorm i then some 1 else sp.ub.getD i none
+  if sp.isNorm i then (if sp.isFrozen i then some 0 else some 1) else sp.ub.getD i none
 
 /-- Lower bound in the working space. -/
 def Space.lbW (sp : Space) (i : Nat) : Option Rat :=
